@@ -247,9 +247,13 @@ func vcRunC05(t *vcTrial, cfg vc05Cfg) {
 	var opPtr uintptr
 	so := vcSrvOpts{Network: cfg.Network, NCloseCb: 3}
 	var ownedSeq uint64
+	epfd := -1
 	so.OnPrepare = func(rec *vcConnRec) {
 		opPtr = vcObjID(vcInner(rec.Conn).operator)
 		ownedSeq = vfNextSeq()
+		if dp, ok := vcInner(rec.Conn).operator.poll.(*defaultPoll); ok {
+			epfd = dp.fd
+		}
 	}
 	if cfg.OnConnect {
 		so.OnConnect = func(ctx context.Context, rec *vcConnRec) {}
@@ -461,6 +465,16 @@ func vcRunC05(t *vcTrial, cfg vc05Cfg) {
 		}
 	}
 	if detached && len(closes) == 0 {
+		// "its poller registration is released": the descriptor is the user's again and still open,
+		// so the kernel shows whether netpoll's epoll instance still watches it - a DEL that
+		// succeeds found a registration that the teardown left behind (events of the user's
+		// socket would go on being dispatched to a poller slot that is free for re-use)
+		if epfd >= 0 {
+			var ev epollevent
+			if err := EpollCtl(epfd, syscall.EPOLL_CTL_DEL, rec.FD, &ev); err == nil {
+				t.Violate("C05", "registration_left", "after Detach and the complete teardown (close callbacks done, poller slot released) descriptor %d was still registered with netpoll's epoll instance: no EPOLL_CTL_DEL was issued (history %v)", rec.FD, rec.history())
+			}
+		}
 		syscall.Close(rec.FD)
 	}
 	if n := audit.freeablesOf(opPtr, ownedSeq); n != 1 {
